@@ -8,7 +8,7 @@
    two FIFOs in any interleaving, task resumption, timer tick); every prefix of a history is
    a history, so "for every history" is also "for every cut point". *)
 From Coq Require Import ZArith List Bool String.
-From BV Require Import Model.Teardown Proofs.Teardown Gen.C16Cleanup.
+From BV Require Import Model.Teardown Model.TeardownShapes Proofs.Teardown Gen.C16Cleanup Gen.C16Shapes.
 Import ListNotations.
 Open Scope Z_scope.
 
@@ -22,6 +22,34 @@ Theorem C16_every_registry_has_a_cleanup :
   cleanup_obligation model_registries found_registries = true.
 Proof. vm_compute. reflexivity. Qed.
 Print Assumptions C16_every_registry_has_a_cleanup.
+
+(* Every registry is emptied by the method the model says: the step of the chain that the
+   removing method stands for is the step the model's table gives the registry. *)
+Theorem C16_registry_hooks_match_source :
+  removers_match model_registries found_removers = true.
+Proof. vm_compute. reflexivity. Qed.
+Print Assumptions C16_registry_hooks_match_source.
+
+(* The 17 functions of the teardown path have exactly the shape (ordered effects, control
+   structure, `if` tests) the model was written against. *)
+Theorem C16_teardown_shapes_match_source :
+  shapes_eqb source_shapes expected_shapes = true.
+Proof. vm_compute. reflexivity. Qed.
+Print Assumptions C16_teardown_shapes_match_source.
+
+(* The model's fan-out order is the order derived from the source: the 'disconnection' emit
+   of the host handler, expanded into the listeners in the order Device.host registers them
+   (Device, then the L2CAP channel manager), then the host's own tables and queues. *)
+Theorem C16_fanout_order_matches_source :
+  hooks_eqb (derive_chain source_shapes) fanout_order = true.
+Proof. vm_compute. reflexivity. Qed.
+Print Assumptions C16_fanout_order_matches_source.
+
+(* Host.on_transport_lost: fail the command only if still pending, then every connection
+   through the disconnection handler, then 'flush' - the order of [Loss]. *)
+Theorem C16_loss_path_matches_source : loss_path_ok source_shapes = true.
+Proof. vm_compute. reflexivity. Qed.
+Print Assumptions C16_loss_path_matches_source.
 
 Theorem C16_model_table_cleaned : all_cleaned model_registries = true.
 Proof. exact model_registries_cleaned. Qed.
